@@ -1,12 +1,15 @@
 (* Corr/C13.v -- correspondence interface for C13 (validate_tracklets). *)
 From Geff Require Export Base GraphVal Reach Tracks.
+(* the model WITH the code's cycle test (TracksCyc.v; equal to Tracks.invalid_tracklets on every graph without closed walks,
+   TracksCyc.invalid_tracklets_c_acyclic): the repository's own tests call the validator on a cyclic tracklet *)
+From Geff Require Export TracksCyc.
 Open Scope list_scope.
 
 Inductive input := ITracklets (E : list (Z * Z)) (NL : nlabels).
 Inductive obs := OInvalid (ids : list Z).       (* tracklet ids named in the error messages, in order *)
 
 Definition model (i : input) : obs :=
-  match i with ITracklets E NL => OInvalid (invalid_tracklets E NL) end.
+  match i with ITracklets E NL => OInvalid (invalid_tracklets_c E NL) end.
 Definition obs_eqb (a b : obs) : bool :=
   match a, b with OInvalid x, OInvalid y => zlist_eqb x y end.
 Definition check (c : input * obs) : bool := obs_eqb (model (fst c)) (snd c).
